@@ -436,10 +436,15 @@ def make_replay(h, failing_descs, scratch, pool, logdir, hdir=None):
     # de-duplicate identical value vectors, cap the number of tests
     seen, uniq = set(), []
     for b in tests:
-        key = re.sub(r'fn kani_concrete_playback_\w+', 'fn T', b)
-        if key not in seen:
-            seen.add(key)
-            uniq.append(b)
+        # one test per function name (= hash of the value vector) and per value vector
+        fn = re.search(r'fn (kani_concrete_playback_\w+)', b)
+        body = re.sub(r'fn kani_concrete_playback_\w+', 'fn T', b[b.find('#[test]'):])
+        if (fn and fn.group(1) in seen) or body in seen:
+            continue
+        seen.add(body)
+        if fn:
+            seen.add(fn.group(1))
+        uniq.append(b)
     test_src = '\n'.join(uniq[:8])
     return run_replay_source(h['file'], h['name'], test_src, failing_descs, scratch, logdir, hdir=hdir)
 
